@@ -308,7 +308,7 @@ func (w *world) callIter(method string, args ...any) ([]stackitem.Item, error) {
 	}
 	tx := w.c.NewScriptTx(nil, script)
 	tx.ValidUntilBlock = w.c.BC.BlockHeight() + 2
-	v, err := w.c.E.TestInvoke(tx)
+	v, err := w.c.TestInvoke(tx)
 	if err != nil {
 		return nil, err
 	}
